@@ -17,6 +17,7 @@ import (
 	"strings"
 
 	"github.com/martian-lang/martian/martian/syntax"
+	"verifharness/internal/astdump"
 	"verifharness/internal/hx"
 )
 
@@ -278,6 +279,178 @@ func c19OnlyKeysDropped(a, b interface{}) bool {
 	return true
 }
 
+
+// ------------------------------------------------------------ applicability / input family
+
+// parameters of a call supplied by its wildcard binding (the compiler appends
+// the expansion after the "*" entry)
+func c19WildSupplied(c *syntax.CallStm) (ref *syntax.RefExp, ids map[string]bool) {
+	ids = map[string]bool{}
+	if c.Bindings == nil {
+		return nil, ids
+	}
+	seen := false
+	for _, b := range c.Bindings.List {
+		if b.Id == "*" {
+			seen = true
+			ref, _ = b.Exp.(*syntax.RefExp)
+		} else if seen {
+			ids[b.Id] = true
+		}
+	}
+	return ref, ids
+}
+
+// c19Wildcard: the renamed parameter is (or, for a colliding new name, may
+// become) bound by name through a wildcard binding.
+func c19Wildcard(ast *syntax.Ast, e c19Edit) bool {
+	collide := e.Note == "collide_param"
+	calls := []*syntax.CallStm{}
+	if ast.Call != nil {
+		calls = append(calls, ast.Call)
+	}
+	for _, p := range ast.Pipelines {
+		calls = append(calls, p.Calls...)
+	}
+	switch e.Kind {
+	case "rename_in":
+		for _, c := range calls {
+			if c.DecId == e.Callable {
+				ref, ids := c19WildSupplied(c)
+				if ids[e.Param] || (collide && ref != nil) {
+					return true
+				}
+			}
+		}
+		for _, p := range ast.Pipelines {
+			if p.Id != e.Callable {
+				continue
+			}
+			for _, c := range p.Calls {
+				ref, ids := c19WildSupplied(c)
+				if ref != nil && ref.Kind == syntax.KindSelf && ref.Id == "" && (ids[e.Param] || collide) {
+					return true
+				}
+			}
+		}
+	case "rename_out":
+		for _, p := range ast.Pipelines {
+			for _, x := range p.Calls {
+				if x.DecId != e.Callable {
+					continue
+				}
+				for _, y := range p.Calls {
+					ref, ids := c19WildSupplied(y)
+					if ref != nil && ref.Kind == syntax.KindCall && ref.Id == x.Id && ref.OutputId == "" && (ids[e.Param] || collide) {
+						return true
+					}
+				}
+			}
+		}
+	}
+	return false
+}
+
+func c19RefTo(ref *syntax.RefExp, callId, out string) bool {
+	if ref.Kind != syntax.KindCall || ref.Id != callId {
+		return false
+	}
+	if ref.OutputId == "" || ref.OutputId == out {
+		return true
+	}
+	return strings.HasPrefix(ref.OutputId, out+".")
+}
+
+func c19ExpRefsTo(exp syntax.Exp, callId, out string) bool {
+	if exp == nil {
+		return false
+	}
+	if r, ok := exp.(*syntax.RefExp); ok {
+		return c19RefTo(r, callId, out)
+	}
+	for _, r := range exp.FindRefs() {
+		if c19RefTo(r, callId, out) {
+			return true
+		}
+	}
+	return false
+}
+
+// c19OutputUsed: some stage input, modifier or pipeline retain (transitively
+// through pipeline returns) refers to the output, so removing it cannot
+// preserve the call graph (remove-output then binds null, as documented).
+func c19OutputUsed(ast *syntax.Ast, callable, out string, depth int) bool {
+	if depth > 8 {
+		return true
+	}
+	for _, p := range ast.Pipelines {
+		for _, x := range p.Calls {
+			if x.DecId != callable {
+				continue
+			}
+			for _, c := range p.Calls {
+				if c.Bindings != nil {
+					for _, b := range c.Bindings.List {
+						if c19ExpRefsTo(b.Exp, x.Id, out) {
+							return true
+						}
+					}
+				}
+				if c.Modifiers != nil && c.Modifiers.Bindings != nil {
+					for _, b := range c.Modifiers.Bindings.List {
+						if c19ExpRefsTo(b.Exp, x.Id, out) {
+							return true
+						}
+					}
+				}
+			}
+			if p.Retain != nil {
+				for _, r := range p.Retain.Refs {
+					if c19RefTo(r, x.Id, out) {
+						return true
+					}
+				}
+			}
+			if p.Ret != nil && p.Ret.Bindings != nil {
+				for _, b := range p.Ret.Bindings.List {
+					if !c19ExpRefsTo(b.Exp, x.Id, out) {
+						continue
+					}
+					if r, ok := b.Exp.(*syntax.RefExp); !ok || r.OutputId == "" {
+						return true // part of a larger value: it would be weakened, not removed
+					}
+					if c19OutputUsed(ast, p.Id, b.Id, depth+1) {
+						return true
+					}
+				}
+			}
+		}
+	}
+	return false
+}
+
+// a map call left without anything to split over
+func c19MapWithoutSplit(f c19Files) bool {
+	for _, body := range f {
+		rest := body
+		for {
+			i := strings.Index(rest, "map call ")
+			if i < 0 {
+				break
+			}
+			rest = rest[i+9:]
+			j := strings.Index(rest, "\n    )")
+			if j < 0 {
+				j = len(rest)
+			}
+			if !strings.Contains(rest[:j], "split ") {
+				return true
+			}
+		}
+	}
+	return false
+}
+
 // ------------------------------------------------------------ oracle
 
 // c19Judge applies the edit to the files and reads the property.  Returns
@@ -289,13 +462,24 @@ func c19Judge(fa c19Files, e c19Edit, top string, roundTrip bool) string {
 	}
 	ga, err := c19Graph(astA)
 	if err != nil {
+		if os.Getenv("C19_VERBOSE") != "" {
+			fmt.Fprintf(c19Stderr, "c19 oracle: no call graph for the original: %v\n", err)
+		}
+		return "skip"
+	}
+	tag := e.Kind
+	if c19Wildcard(astA, e) {
+		tag += "_wildcard"
+	}
+	if e.Kind == "remove_out" && c19OutputUsed(astA, e.Callable, e.Param, 0) {
+		// outside the property: a used output cannot be removed without changing
+		// what its consumers see; the edit must still not crash
+		if _, status, detail := c19Apply(fa, e, top); status == "panic" {
+			return fmt.Sprintf("FAIL %s_used_panic %s %s.%s: %.300s", tag, e.Kind, e.Callable, e.Param, detail)
+		}
 		return "skip"
 	}
 	fb, status, detail := c19Apply(fa, e, top)
-	tag := e.Kind
-	if e.Note != "-" && e.Note != "" {
-		tag += "_" + e.Note
-	}
 	switch status {
 	case "noedit":
 		if strings.HasPrefix(e.Kind, "unused") {
@@ -305,10 +489,13 @@ func c19Judge(fa c19Files, e c19Edit, top string, roundTrip bool) string {
 	case "referr", "applyerr", "panic", "origerr":
 		return fmt.Sprintf("FAIL %s_%s %s %s.%s -> %s: %.300s", tag, status, e.Kind, e.Callable, e.Param, e.New, detail)
 	}
+	if c19MapWithoutSplit(fb) && !c19MapWithoutSplit(fa) {
+		return fmt.Sprintf("FAIL %s_map_loses_split %s %s.%s: the removed input (directly or by cascade) was the only one a map call split over; the call is left as a map call with nothing to split", tag, e.Kind, e.Callable, e.Param)
+	}
 	astB, err := c19Compile(fb)
 	if err != nil {
-		return fmt.Sprintf("FAIL %s_nocompile_%s %s %s.%s -> %s: edited files do not compile: %.400s", tag, c19ErrKind(err),
-			e.Kind, e.Callable, e.Param, e.New, strings.Join(strings.Fields(err.Error()), " "))
+		return fmt.Sprintf("FAIL %s_nocompile %s %s.%s -> %s (%s): edited files do not compile: %.400s", tag,
+			e.Kind, e.Callable, e.Param, e.New, e.Note, strings.Join(strings.Fields(err.Error()), " "))
 	}
 	gb, err := c19Graph(astB)
 	if err != nil {
@@ -326,7 +513,7 @@ func c19Judge(fa c19Files, e c19Edit, top string, roundTrip bool) string {
 		}
 		astC, err := c19Compile(fc)
 		if err != nil {
-			return fmt.Sprintf("FAIL %s_roundtrip_nocompile_%s %s %s.%s -> %s and back: %.400s", tag, c19ErrKind(err), e.Kind, e.Callable, e.Param, e.New,
+			return fmt.Sprintf("FAIL %s_roundtrip_nocompile %s %s.%s -> %s and back: %.400s", tag, e.Kind, e.Callable, e.Param, e.New,
 				strings.Join(strings.Fields(err.Error()), " "))
 		}
 		gc, err := c19Graph(astC)
@@ -423,9 +610,15 @@ func c19Try(args []string) {
 			continue
 		}
 		i++
+		if os.Getenv("C19_TRACE") != "" {
+			fmt.Fprintf(c19Stderr, "##### program %d\n", i)
+			for _, nme := range c19FileNames(fa) {
+				fmt.Fprintf(c19Stderr, "--- %s\n%s", nme, fa[nme])
+			}
+		}
 		for _, e := range c19Edits(p) {
 			for _, rt := range []bool{false, true} {
-				if _, ok := e.inverse(); rt && !ok {
+				if _, ok := e.inverse(); rt && (!ok || e.Note != "fresh") {
 					continue
 				}
 				res := c19Judge(fa, e, p.Top.Dec, rt)
@@ -466,4 +659,83 @@ func c19Try(args []string) {
 	}
 }
 
-func c19Coq(args []string) {}
+// coq <cases> <model> <n>: a Coq file whose vm_compute evaluation lists the
+// sampled cases on which the validator evaluated by the kernel differs from
+// the extracted validator (the model output), i.e. cross-checks the
+// extraction, and counts the verdicts.
+func c19Coq(args []string) {
+	c19Silence()
+	defer c19Cleanup()
+	cases, _ := os.ReadFile(args[0])
+	model, _ := os.ReadFile(args[1])
+	n, _ := strconv.Atoi(args[2])
+	cl := strings.Split(strings.TrimSpace(string(cases)), "\n")
+	ml := strings.Split(strings.TrimSpace(string(model)), "\n")
+	var idx []int
+	for i, c := range cl {
+		if (strings.HasPrefix(c, "E ") || strings.HasPrefix(c, "T ")) && i < len(ml) && !strings.HasSuffix(ml[i], " -") {
+			idx = append(idx, i)
+		}
+	}
+	if n < len(idx) && n > 0 {
+		var pick []int
+		for k := 0; k < n; k++ {
+			pick = append(pick, idx[k*len(idx)/n])
+		}
+		idx = pick
+	}
+	w := hx.Out
+	fmt.Fprintln(w, "From Coq Require Import String.\nFrom Martian Require Import Lib.Bytes Mro.Ast K.Refactor.\nOpen Scope string_scope.")
+	progs := map[string]c19Files{}
+	for _, c := range cl {
+		if strings.HasPrefix(c, "P ") {
+			f := strings.Split(c, " ")
+			progs[f[1]] = c19Dec(f[2])
+		}
+	}
+	done := map[string]bool{}
+	bq := func(s string) string {
+		if s == "" {
+			return "(@nil byte)"
+		}
+		return fmt.Sprintf("(unhex \"%x\")", s)
+	}
+	var rows []string
+	for _, i := range idx {
+		f := strings.Split(cl[i], " ")
+		if !done[f[1]] {
+			a, err := c19Compile(progs[f[1]])
+			if err != nil {
+				continue
+			}
+			fmt.Fprintf(w, "Definition prog%s : ast := %s.\n", f[1], astdump.Ast(a).Coq())
+			done[f[1]] = true
+		}
+		b, err := c19Compile(c19Dec(f[8]))
+		if err != nil {
+			continue
+		}
+		e := c19EditOf(f[2:7])
+		fmt.Fprintf(w, "Definition after%d : ast := %s.\n", i, astdump.Ast(b).Coq())
+		var call string
+		switch {
+		case f[0] == "T":
+			call = fmt.Sprintf("check_roundtrip prog%s after%d", f[1], i)
+		case e.Kind == "rename":
+			call = fmt.Sprintf("check_rename (RenameCallable %s %s) prog%s after%d", bq(e.Callable), bq(e.New), f[1], i)
+		case e.Kind == "rename_in":
+			call = fmt.Sprintf("check_rename (RenameInput %s %s %s) prog%s after%d", bq(e.Callable), bq(e.Param), bq(e.New), f[1], i)
+		case e.Kind == "rename_out":
+			call = fmt.Sprintf("check_rename (RenameOutput %s %s %s) prog%s after%d", bq(e.Callable), bq(e.Param), bq(e.New), f[1], i)
+		default:
+			call = fmt.Sprintf("check_removal prog%s after%d", f[1], i)
+		}
+		exp := strings.Fields(ml[i])[1]
+		rows = append(rows, fmt.Sprintf("(%d%%N, %s, %s%%N)", i, call, exp))
+	}
+	fmt.Fprintf(w, "Definition rows : list (N * N * N) := [\n%s].\n", strings.Join(rows, ";\n"))
+	fmt.Fprintln(w, `Definition M := Eval vm_compute in (map (fun r => fst (fst r)) (filter (fun r => negb (N.eqb (snd (fst r)) (snd r))) rows)).
+Print M.
+Definition COUNT := Eval vm_compute in (length rows, length (filter (fun r => N.eqb (snd r) 0) rows)).
+Print COUNT.`)
+}
